@@ -147,7 +147,7 @@ Section Expr.
   Hypothesis Hbres : forall op, ot_bin_res T (spec_bin_class op) = spec_bin_res (spec_bin_class op).
   Hypothesis Hureq : forall op, ot_un_req T op = spec_un_req op.
   Hypothesis Hures : forall op, ot_un_res T op = spec_un_res op.
-  Hypothesis Hps : forall k, ot_pseudo_req T k = spec_pseudo_req k.
+  Hypothesis Hps0 : forall k, ot_pseudo_req T k = spec_pseudo_req k.
 
   Lemma var_inherent_eq sg n : var_inherent G (Var sg n) = inherent G n.
   Proof. destruct n; reflexivity. Qed.
@@ -188,17 +188,9 @@ Section Expr.
   Qed.
 
   Lemma diff_go_same (f : texpr -> outcome ety) rest : forall t0 t,
-    (fix go (l : list (option texpr)) (t : sty) : outcome sty :=
-       match l with
-       | [] => Ok t
-       | None :: l' => go l' t
-       | Some x :: l' =>
-           do tx <- (do y <- f x; as_value y);
-           do t' <- require_same t tx;
-           go l' t'
-       end) rest t0 = Ok t -> t = t0.
+    diff_go f rest t0 = Ok t -> t = t0.
   Proof.
-    induction rest as [|[x|] rest IH]; intros t0 t H.
+    induction rest as [|[x|] rest IH]; intros t0 t H; simpl in H.
     - inversion H; auto.
     - bind_inv H tx Htx. bind_inv H t' Ht'. apply require_same_ok in Ht'. destruct Ht'; subst. eauto.
     - eauto.
@@ -221,10 +213,10 @@ Section Expr.
     - (* xcr *) bind_inv Hc t0 Ht0. bind_inv Hc u Hu. inversion Hc; subst.
       destruct t0; simpl in Hu; try discriminate. reflexivity.
     - (* tern *) apply andb_true_iff in Hg. destruct Hg as [Hg Hg3]. apply andb_true_iff in Hg. destruct Hg as [Hg1 Hg2].
-      bind_inv Hc tl Htl. bind_inv Hc tr Htr. bind_inv Hc tc Htc. bind_inv Hc u Hu. bind_inv Hc r Hr.
+      bind_inv Hc tyl Htyl. bind_inv Hc tyr Htyr. bind_inv Hc tyc Htyc. bind_inv Hc u Hu. bind_inv Hc r Hr.
       inversion Hc; subst.
       apply require_same_ok in Hr. destruct Hr; subst.
-      bind_inv Htl xl Hxl. apply as_value_ok in Htl. subst. apply IHe2; auto.
+      bind_inv Htyl xl Hxl. apply as_value_ok in Htyl. subst. apply IHe2; auto.
     - (* diff *) apply andb_true_iff in Hg. destruct Hg as [Hg1 Hg2].
       bind_inv Hc t0 Ht0. bind_inv Hc r Hr. inversion Hc; subst.
       apply diff_go_same in Hr. subst.
@@ -237,5 +229,55 @@ Section Expr.
       + destruct (fn_sig G f); try discriminate.
         destruct (negb (length args =? min_args s)%nat); try discriminate.
         bind_inv Hc params Hp. bind_inv Hc u1 Hu1. bind_inv Hc u2 Hu2. exact Hc.
+  Qed.
+
+  (* ---- check_expr decides has_type ---- *)
+  Definition cav (e : texpr) : outcome sty := do x <- check_expr T G e; as_value x.
+
+  Lemma cav_iff e : (forall t, check_expr T G e = Ok t <-> has_type G e t) ->
+    forall t, cav e = Ok t <-> has_type G e (Value t).
+  Proof.
+    intros IH t. unfold cav. split; intros H.
+    - bind_inv H x Hx. apply as_value_ok in H. subst. apply IH. exact Hx.
+    - apply IH in H. rewrite H. reflexivity.
+  Qed.
+
+  Lemma diff_go_iff rest :
+    Forall (fun c => match c with
+                     | Some x => eguard x = true -> forall t, check_expr T G x = Ok t <-> has_type G x t
+                     | None => True end) rest ->
+    forallb (fun c => match c with Some x => eguard x | None => true end) rest = true ->
+    forall t0 t, diff_go (check_expr T G) rest t0 = Ok t <-> (t = t0 /\ cases_typed G rest t0).
+  Proof.
+    induction 1 as [|c rest Hc Hrest IH]; intros Hg t0 t; simpl.
+    - split; intros H; [inversion H; split; auto; constructor | destruct H; subst; auto].
+    - simpl in Hg. apply andb_true_iff in Hg. destruct Hg as [Hg1 Hg2].
+      destruct c as [x|].
+      + specialize (Hc Hg1). split; intros H.
+        * bind_inv H tx Htx. bind_inv H t' Ht'. apply require_same_ok in Ht'. destruct Ht'; subst.
+          apply (IH Hg2) in H. destruct H as [-> H]. split; auto.
+          constructor; auto. apply (cav_iff x Hc). exact Htx.
+        * destruct H as [-> H]. inversion H as [| |? ? ? Hhx Hhr]; subst.
+          fold (cav x). apply (cav_iff x Hc) in Hhx. rewrite Hhx. cbn [obind].
+          unfold require_same. rewrite sty_eqb_refl. cbn [obind]. apply (IH Hg2). auto.
+      + rewrite (IH Hg2). split; intros [-> H]; split; auto; [constructor; auto | inversion H; auto].
+  Qed.
+
+  Lemma pseudos_go_iff ps :
+    Forall (fun p => eguard (snd p) = true -> forall t, check_expr T G (snd p) = Ok t <-> has_type G (snd p) t) ps ->
+    forallb (fun p => eguard (snd p)) ps = true ->
+    (pseudos_go T (check_expr T G) ps = Ok tt <-> pseudos_typed G ps).
+  Proof.
+    induction 1 as [|[k x] ps Hx Hps IH]; intros Hg; simpl.
+    - split; intros; auto. constructor.
+    - simpl in Hg. apply andb_true_iff in Hg. destruct Hg as [Hg1 Hg2]. simpl in Hx. specialize (Hx Hg1).
+      rewrite Hps0. split; intros H.
+      + bind_inv H tx Htx. bind_inv H u Hu. constructor.
+        * apply (cav_iff x Hx) in Htx.
+          destruct k, tx; simpl in Hu; try discriminate; exact Htx.
+        * apply IH; auto.
+      + inversion H as [|? ? ? Hhx Hhps]; subst. fold (cav x). apply (cav_iff x Hx) in Hhx. rewrite Hhx. cbn [obind].
+        replace (require (spec_pseudo_req k) (spec_pseudo_ty k)) with (Ok tt : outcome unit) by (destruct k; reflexivity).
+        cbn [obind]. apply IH; auto.
   Qed.
 End Expr.
